@@ -9,7 +9,7 @@ from props.resp_run import disc
 from vf.core import Ctx
 
 
-def run_scenarios(ctx: Ctx, scenarios: list) -> None:
+def run_scenarios(ctx: Ctx, scenarios: list) -> list:
     traces = trace_run.record_all('props.respfam', 'Recorder', scenarios, 16 if ctx.thorough else 8)
     ctx.log('recorded %d traces, %d events' % (len(traces), sum(len(t['events']) for t in traces)))
     verdicts, states, trans = trace_run.validate('Trace_Responder', traces, {'own': 'C09'}, batch=250, par=4)
@@ -47,11 +47,30 @@ def run_scenarios(ctx: Ctx, scenarios: list) -> None:
     cov.update(res)
     ctx.assumptions += ['a conflict that is ingested before the third probe is sent (trace order) must be detected; later ones are unconstrained',
                         'conflicting record injected as a response datagram by the harness (a second real owner instance is exercised in C07)']
+    return traces
 
 
 def run(ctx: Ctx) -> None:
+    from props import regmodel as rm
     rng = random.Random(ctx.seed * 7919 + 9)
-    run_scenarios(ctx, [rf.gen_c09(rng, 'c09-%d' % k, ctx.thorough) for k in range(ctx.pick(300, 5000))])
+    scenarios = [rf.gen_c09(rng, 'c09-%d' % k, ctx.thorough) for k in range(ctx.pick(300, 5000))]
+    # binding 1: the implementation-shaped model of the probing coroutine against the schedule / conflict contract
+    info = rm.check_models(ctx)
+    ctx.log('Register model: %d distinct states, contract invariants hold; variant without the re-check after a wait violates %s'
+            % (info['model_distinct'], info['defect_config_violates']))
+    # binding 2: its behaviours replayed into the real registration
+    mscs, predicted = rm.model_scenarios(ctx)
+    traces = run_scenarios(ctx, scenarios + mscs)
+    d = rm.drift(traces, predicted)
+    for x in d[:5]:
+        print('MODEL-DRIFT property=C09 scenario=%s real probes / outcome %s, model predicts %s (evidence, not a verdict: the '
+              'exhaustively checked model Register.tla no longer describes the registration)' % (x['scenario'], x['real'], x['model']))
+    ctx.coverage.update(info)
+    ctx.coverage.update({'model_behaviours_replayed': len(mscs), 'model_drift': len(d), 'model_drift_samples': d[:3],
+                         'model_constants': 'exhaustive: conflicts for 3 candidate names at 13 instants around the probe times '
+                                            '(-500 .. +500 ms), rename allowed / not; replay: every history over 5 instants, both '
+                                            'rename settings, plus random walks over 19 instants'})
+    ctx.log('model behaviours replayed into the real registration: %d, drift: %d' % (len(mscs), len(d)))
 
 
 def replay(ctx: Ctx, path: str) -> None:
